@@ -1329,6 +1329,19 @@ class Function(Ring):
         return numpy.size(self.x)
     size = property(get_size)
 
+    def copy(self):
+        """
+        a recorded copy: a new node with its own storage (x * 1 keeps the
+        value, its dtype and the sign of zeros). copy.deepcopy of a traced value
+        would otherwise return an object that is in no graph.
+        """
+        return self * 1
+
+    clone = copy
+
+    def __deepcopy__(self, memo):
+        return self.copy()
+
     def get_flat(self):
         # a traced node (reading the raw value would leave the graph)
         return self.reshape((numpy.size(self.x),))
